@@ -1382,6 +1382,20 @@ class SplitWorld(BaseWorld):
                 if self.family == 'sle' and ph == 's' and pk.ids[k] not in pk.solutes:
                     ph = 'l'
                 row = rows[ph].tolist()
+                if self.family == 'lle' and r.random() < 0.4:
+                    # transfer between two chemicals of one row: the total flow and every OTHER chemical's
+                    # overall mole fraction stay exactly what they were (a reuse test that looks at only
+                    # some of the mole fractions must not mistake this for an unchanged feed)
+                    src = [i for i, v in enumerate(row) if v > 0]
+                    if src:
+                        j = r.choice(src)
+                        others = [i for i in range(len(row)) if i != j]
+                        if others:
+                            k2 = r.choice(others)
+                            d = row[j] * r.choice([0.25, 0.5, 0.8])
+                            row[j] -= d
+                            row[k2] += d
+                            return {'op': 'edit', 'stream': s, 'phase': ph, 'flows': row}
                 row[k] = r.choice([0.0, round(r.uniform(0.1, 30.0), 3), row[k] * 2, row[k] + 1e-6])
                 return {'op': 'edit', 'stream': s, 'phase': ph, 'flows': row}
             ph = r.choice(list(self.phases))
@@ -1513,7 +1527,16 @@ class SplitWorld(BaseWorld):
             return False
         return True
 
+    def merged_if_trivial(self, r):
+        """two 'phases' of identical composition are one liquid: how it is apportioned is immaterial"""
+        L, l = r['L'], r['l']
+        if L.sum() > 0 and l.sum() > 0:
+            if float(np.abs(L / L.sum() - l / l.sum()).max()) < 1e-3:
+                return {'L': np.zeros_like(L), 'l': L + l}
+        return r
+
     def split_distance(self, a, b, F, allow_swap):
+        a, b = self.merged_if_trivial(a), self.merged_if_trivial(b)
         if not self.two_liquids(a) and not self.two_liquids(b):
             return 0.0, False      # one liquid in both: how it is apportioned to the labels is immaterial
         d = max(float(np.abs(a['L'] - b['L']).max()), float(np.abs(a['l'] - b['l']).max())) / F
@@ -1563,6 +1586,13 @@ class SplitWorld(BaseWorld):
                 twin_exc = None
             except Exception as e2:
                 twin_exc = e2
+            if (mem is not None and self.cfg['method'] == 'pseudo equilibrium'
+                    and 'C15-lle-default-method-warm-start' in self.regions
+                    and (twin_exc is None or type(twin_exc) is not type(e))):
+                # the default method starts from the remembered K (KF-C15-1): an exception only the aged
+                # solver raises is that listed contamination
+                self.stats['region:C15-lle-default-method-warm-start'] += 1
+                return ['known-finding', type(e).__name__]
             if twin_exc is None or type(twin_exc) is not type(e):
                 self.fail('aged-only-exception',
                           f'lle(T={ev["T"]}) raised {type(e).__name__}: {e} on the aged stream; a brand-new '
@@ -1641,7 +1671,7 @@ class SplitWorld(BaseWorld):
                 if swapped:
                     self.stats['label_swap_vs_fresh_without_top_chemical'] += 1
                 self.track('fresh:' + self.cfg['method'], d)
-                if d > SPLIT_TOL:
+                if d > SPLIT_TOL and not self.optimizer_unreliable_here(before, T0, P0, ev):
                     detail['fresh'] = {k: v.tolist() for k, v in tw.items()}
                     detail['remembered'] = None if mem is None else {'T': mem['T'], 'ids': mem['ids'],
                                                                      'z': mem['z'].tolist(), 'phi': mem['phi']}
@@ -1664,7 +1694,7 @@ class SplitWorld(BaseWorld):
                 if swapped:
                     self.stats['label_swap_cache_vs_nocache_without_top_chemical'] += 1
                 self.track('cache:' + self.cfg['method'], d)
-                if d > SPLIT_TOL:
+                if d > SPLIT_TOL and not self.optimizer_unreliable_here(before, T0, P0, ev):
                     detail['other'] = {k: v.tolist() for k, v in tw.items()}
                     self.fail('cache-vs-nocache',
                               f'lle(T={ev["T"]}) after {hist} earlier call(s): use_cache={ev["use_cache"]} and '
@@ -1673,10 +1703,21 @@ class SplitWorld(BaseWorld):
         elif check == 'scale':
             k = ev['k']
             other = self.replay_twin(name, k=k, upto=upto)
+            ob = {ph: v / k for ph, v in self.rows(other).items()}
+            d0 = max(float(np.abs(ob['L'] - before['L']).max()), float(np.abs(ob['l'] - before['l']).max())) / F
+            if d0 > SCALE_TOL and self.cfg['method'] != 'pseudo equilibrium' \
+                    and 'C15-lle-optimizer-activity' in self.regions:
+                # the scaled replay already differs BEFORE the probed call: an earlier optimiser call gave
+                # another split at the other scale (KF-C15-3); nothing about this call can be concluded
+                self.stats['region:C15-lle-optimizer-activity'] += 1
+                other = None
             with faults.armed(ev.get('fault')):
                 try:
-                    self.lle_call(other, ev)
-                    tw = self.rows(other)
+                    if other is None:
+                        tw = None
+                    else:
+                        self.lle_call(other, ev)
+                        tw = self.rows(other)
                 except Exception as e:
                     tw = None
                     self.stats['twin_raised:' + type(e).__name__] += 1
@@ -1685,7 +1726,7 @@ class SplitWorld(BaseWorld):
                 d, swapped = self.split_distance(after, tw, F, False)
                 self.stats['judged:scale'] += 1
                 self.track('scale:' + self.cfg['method'], d)
-                if d > SCALE_TOL:
+                if d > SCALE_TOL and not self.optimizer_unreliable_here(before, T0, P0, ev, k):
                     detail['scaled_twin_over_k'] = {kk: v.tolist() for kk, v in tw.items()}
                     self.fail('scaling', f'lle(T={ev["T"]}) on the same history with every flow multiplied by '
                                          f'{k!r} gives flows/k that differ by {d:.3g} of the feed', detail)
@@ -1694,6 +1735,30 @@ class SplitWorld(BaseWorld):
                            (ev['T'] > mem['T']) - (ev['T'] < mem['T']), bool(ev['use_cache']), check,
                            bool(ev.get('top')), bool(r[2]), None if m2 is None else m2['two'])
         return ['ok', [float(v).hex() for v in after['L']], [float(v).hex() for v in after['l']]]
+
+    def optimizer_unreliable_here(self, before, T0, P0, ev, k=None):
+        """KF-C15-3 judged at the oracle: the optimiser-based methods return clearly different splits for
+        the SAME feed at different flow scales on some inputs (no history involved).  True when brand-new
+        streams with these contents, flashed at scale 1, at the probed scale and at scale 3.7, disagree
+        among themselves - then a disagreement of an aged/cached/scaled run is not attributable to history."""
+        if self.cfg['method'] == 'pseudo equilibrium' or 'C15-lle-optimizer-activity' not in self.regions:
+            return False
+        F = float((before['L'] + before['l']).sum())
+        outs = []
+        for kk in [1.0, 3.7] + ([k] if k else []):
+            tw = self.fresh_from({ph: v * kk for ph, v in before.items()}, T0, P0)
+            try:
+                with faults.disarmed():
+                    self.lle_call(tw, ev, use_cache=False)
+                outs.append({ph: v / kk for ph, v in self.rows(tw).items()})
+            except Exception:
+                return True
+        for o in outs[1:]:
+            d, _ = self.split_distance(outs[0], o, F, True)
+            if d > SCALE_TOL:
+                self.stats['region:C15-lle-optimizer-activity'] += 1
+                return True
+        return False
 
     # ---------------------------------------------------------------- SLE
     def solubility_at(self, rows, solute, T):
